@@ -42,7 +42,9 @@ def generate(seed, tier):
     if mode == 'codec':
         for _ in range(rng.randint(6, 14)):
             x = rng.random()
-            if x < 0.45:
+            if x < 0.08:
+                ops.append({'op': 'built_in_memory', 'n': rng.randrange(1000), 'edit': rng.choice(['output_value', 'append_output', 'signature', 'drop_input'])})
+            elif x < 0.45:
                 ops.append({'op': 'rewrite', 'type': rng.choice(['block', 'block', 'header', 'summary', 'tx', 'tx', 'input',
                                                                  'output', 'outref', 'evidence', 'sig', 'pubkey', 'coinbasedata',
                                                                  'summary_edge', 'summary_edge', 'tx_many_outputs']),
@@ -133,6 +135,38 @@ def run_codec(script, res, trace):
         if res.violations:
             break
         res.events += 1
+        if op['op'] == 'built_in_memory':
+            # an object built in memory, looked at (id taken), completed or altered in place, looked at again:
+            # the id must be the hash of what the object now encodes to
+            b0 = with_tx[op.get('n', 0) % len(with_tx)]
+            t0 = b0.transactions[-1]
+            tx = Transaction(list(t0.inputs), list(t0.outputs))
+            first = tx.hash()
+            e = op.get('edit')
+            if e == 'output_value':
+                tx.outputs[0] = Output(tx.outputs[0].value + 1, tx.outputs[0].public_key)
+            elif e == 'append_output':
+                tx.outputs.append(Output(7, W.key(3).pk))
+            elif e == 'signature':
+                tx.inputs[0] = Input(tx.inputs[0].output_reference, SignableEquivalent())
+            else:
+                tx.inputs.append(Input(OutputReference(b'\x09' * 32, 1), SignableEquivalent()))
+            res.bump('built_in_memory_edits')
+            res.distinct.add('memory:%s' % e)
+            if tx.hash() != sha256d(tx.serialize()):
+                res.violate(PROP, 'C07/id-is-not-hash-of-canonical-encoding',
+                            'a transaction built in memory, hashed, then edited in place (%s) reports id %s; its encoding hashes to %s' % (
+                                e, tx.hash().hex()[:16], sha256d(tx.serialize()).hex()[:16]))
+                break
+            blk = Block(BlockHeader(b0.header.summary, b0.header.pow_evidence), list(b0.transactions))
+            h1 = blk.hash()
+            s0 = b0.header.summary
+            blk.header = BlockHeader(BlockSummary(s0.height, s0.previous_block_hash, s0.merkle_root_hash, s0.timestamp + 1, s0.target, s0.nonce),
+                                     b0.header.pow_evidence)
+            if blk.hash() != sha256d(blk.header.serialize()):
+                res.violate(PROP, 'C07/id-is-not-hash-of-canonical-encoding', 'a block built in memory keeps a stale id after its header changed')
+                break
+            continue
         if op['op'] == 'rewrite':
             cls, obj = pick(op['type'], op.get('n', 0))
             raw = obj.serialize()
